@@ -101,7 +101,7 @@ var rewritePkgs = []string{
 // pid and signal delivery to the simulated namespace / process table.
 const replaceSpec = "src.elv.sh/pkg/daemon:net.Listen=NetListen,net.Dial=NetDial,os.Lstat=FSLstat,os.Remove=FSRemove,syscall.Getpid=Getpid,os.Process.Signal=ProcSignal"
 
-const hbSpec = "src.elv.sh/pkg/eval.Evaler.global,src.elv.sh/pkg/eval.Evaler.builtin,src.elv.sh/pkg/eval.Evaler.deprecations,src.elv.sh/pkg/eval.Evaler.modules,src.elv.sh/pkg/eval.Evaler.evalCount,maptype:map[string]*src.elv.sh/pkg/eval.Ns,maptype:map[pkg.nimblebun.works/go-lsp.DocumentURI]src.elv.sh/pkg/lsp.document"
+const hbSpec = "src.elv.sh/pkg/eval.Evaler.global,src.elv.sh/pkg/eval.Evaler.builtin,src.elv.sh/pkg/eval.Evaler.deprecations,src.elv.sh/pkg/eval.Evaler.modules,src.elv.sh/pkg/eval.Evaler.evalCount,maptype:map[string]*src.elv.sh/pkg/eval.Ns,maptype:map[pkg.nimblebun.works/go-lsp.DocumentURI]src.elv.sh/pkg/lsp.document,maptype:*,elems:src.elv.sh/pkg/eval.Ns.slots"
 
 // prepare builds the harness binary in a fresh scratch directory and returns
 // (scratch dir, path of the test binary).
